@@ -114,13 +114,38 @@ class Signs:
 
     # ------------------------------------------------------------------ statements
     def _truth(self, test, defaults):
-        """True / False / None for tests decided by default parameter values"""
+        """True / False / None for tests decided by default parameter values and by what the path already knows about boolean names"""
         if isinstance(test, ast.Name) and test.id in defaults and isinstance(defaults[test.id], bool):
             return defaults[test.id]
+        if isinstance(test, ast.Constant) and isinstance(test.value, bool):
+            return test.value
         if isinstance(test, ast.UnaryOp) and isinstance(test.op, ast.Not):
             t = self._truth(test.operand, defaults)
             return None if t is None else (not t)
+        if isinstance(test, ast.BoolOp):
+            ts = [self._truth(v, defaults) for v in test.values]
+            if isinstance(test.op, ast.And):
+                return False if any(t is False for t in ts) else (True if all(t is True for t in ts) else None)
+            return True if any(t is True for t in ts) else (False if all(t is False for t in ts) else None)
         return None
+
+    def _facts(self, test, val, defaults):
+        """{name: bool} implied by `test` evaluating to val (only plain names, negations, and conjunctions / disjunctions whose other operands are known)"""
+        if isinstance(test, ast.Name):
+            return {test.id: val}
+        if isinstance(test, ast.UnaryOp) and isinstance(test.op, ast.Not):
+            return self._facts(test.operand, not val, defaults)
+        if isinstance(test, ast.BoolOp):
+            conj = isinstance(test.op, ast.And)
+            if val == conj:                      # (A and B) true / (A or B) false: every operand has that value
+                out = {}
+                for v in test.values:
+                    out.update(self._facts(v, val, defaults))
+                return out
+            unknown = [v for v in test.values if self._truth(v, defaults) is None]
+            if len(unknown) == 1:                # (A and B) false with A known true: B is false
+                return self._facts(unknown[0], val, defaults)
+        return {}
 
     def _block(self, body, env, f, rets, defaults):
         """returns True when the block always returns"""
@@ -138,6 +163,9 @@ class Signs:
         if isinstance(st, ast.Assign):
             v = self.kind_tuple(st.value, f, env)
             for t in st.targets:
+                for n_ in ast.walk(t):
+                    if isinstance(n_, ast.Name) and n_.id in defaults and n_.id not in f.params():
+                        defaults.pop(n_.id)
                 self._assign(t, v, st.value, env, f, defaults)
             return False
         if isinstance(st, ast.AugAssign):
@@ -156,14 +184,18 @@ class Signs:
             if t is False:
                 return self._block(st.orelse, env, f, rets, defaults)
             e1, e2 = dict(env), dict(env)
-            r1 = self._block(st.body, e1, f, rets, defaults)
-            r2 = self._block(st.orelse, e2, f, rets, defaults)
+            d1 = dict(defaults, **self._facts(st.test, True, defaults))
+            d2 = dict(defaults, **self._facts(st.test, False, defaults))
+            r1 = self._block(st.body, e1, f, rets, d1)
+            r2 = self._block(st.orelse, e2, f, rets, d2)
             if r1 and r2:
                 return True
             src = e2 if r1 else (e1 if r2 else None)
             if src is not None:
                 env.clear()
                 env.update(src)
+                # what the surviving branch knows holds for the rest of the block
+                defaults.update(d2 if r1 else d1)
             else:
                 for k in set(e1) | set(e2):
                     env[k] = join(e1.get(k, OTHER if k in e2 else None), e2.get(k, OTHER if k in e1 else None)) if (k in e1 and k in e2) else OTHER
@@ -229,8 +261,9 @@ class Signs:
                 return l + r
         if isinstance(node, ast.Call):
             s = self._call_summary(node, f, env)
-            if s is not None:
+            if isinstance(s, tuple):
                 return s
+            return self.kind(node, f, env)       # known constructors (norm_vector, sqrt, abs ...) first, then the callee's scalar summary
         if isinstance(node, ast.Name) and isinstance(env.get(node.id), tuple):
             return env[node.id]
         return self.kind(node, f, env)
